@@ -1982,37 +1982,36 @@ class VM:
             elif isinstance(sep, JSRegExp):
                 # Split with regex using microjs.regex
                 try:
+                    # RegExp.prototype[@@split]: the pattern is tried at each
+                    # position q (like a sticky match); an empty match at the
+                    # start of the current piece is skipped, as is one at the
+                    # very end of the subject.
                     regex_internal = sep._internal
                     parts = []
-                    last_end = 0
-                    pos = 0
                     capture_count = regex_internal._capture_count
-
-                    while pos <= len(s):
-                        # Create fresh regex VM for each search to avoid lastIndex issues
-                        vm_regex = regex_internal._create_vm()
-                        result = vm_regex.search(s, pos)
-                        if result is None:
-                            break
-
-                        # Add the part before this match
-                        parts.append(s[last_end : result.index])
-
-                        # Add captured groups (JS behavior) - capture_count includes group 0
-                        for i in range(1, capture_count):
-                            group_val = result[i]
-                            parts.append(
-                                group_val if group_val is not None else UNDEFINED
-                            )
-
-                        # Move past the match
-                        match_len = len(result[0]) if result[0] else 0
-                        last_end = result.index + match_len
-                        # Advance position (at least by 1 to avoid infinite loop on zero-width)
-                        pos = last_end if match_len > 0 else result.index + 1
-
-                    # Add remainder after last match
-                    parts.append(s[last_end:])
+                    size = len(s)
+                    if size == 0:
+                        if regex_internal._create_vm().match(s, 0) is None:
+                            parts.append(s)
+                    else:
+                        p = q = 0
+                        while q < size:
+                            result = regex_internal._create_vm().match(s, q)
+                            e = None
+                            if result is not None:
+                                e = min(result.index + len(result[0] or ""), size)
+                            if e is None or e == p:
+                                q += 1
+                                continue
+                            parts.append(s[p:q])
+                            # Captured groups are spliced in (undefined when not participating)
+                            for i in range(1, capture_count):
+                                group_val = result[i]
+                                parts.append(
+                                    group_val if group_val is not None else UNDEFINED
+                                )
+                            p = q = e
+                        parts.append(s[p:])
                 except RegexTimeoutError:
                     raise TimeLimitError("Regex execution timeout")
             elif to_string(sep) == "":
